@@ -315,6 +315,22 @@ func c15Parse(cs *Case, r *rand.Rand) {
 		}
 		_ = ok
 		val := strings.Join(devs, ",")
+		if chance(r, 15) {
+			// white space at the ends of the value or next to a comma belongs to the device
+			// names it touches (a value is a comma-separated list, nothing else)
+			ws := pickStr(r, " ", "\n", "\t", "\r\n", "\u00a0", "\u2028", "\v", "  ")
+			switch r.Intn(4) {
+			case 0:
+				val = ws + val
+			case 1:
+				val = val + ws
+			case 2:
+				val = ws + val + ws
+			default:
+				val = strings.Replace(val, ",", pickStr(r, ","+ws, ws+","), 1) + pickStr(r, "", ws)
+			}
+			c.Count("parse_values_with_white_space_around_elements", 1)
+		}
 		// what counts is what the value splits into (an element with an
 		// embedded comma becomes two devices)
 		for _, d := range strings.Split(val, ",") {
